@@ -12,7 +12,8 @@ use kira::sound::static_sound::StaticSoundSettings;
 use kira::sound::streaming::{Decoder, StreamingSoundData, StreamingSoundHandle};
 use kira::sound::{PlaybackPosition, PlaybackState, Region};
 use kira::track::{MainTrackBuilder, TrackBuilder, TrackHandle};
-use kira::{Capacities, Frame, PlaySoundError, Tween};
+use kira::clock::ClockSpeed;
+use kira::{Capacities, Frame, PlaySoundError, StartTime, Tween};
 use std::sync::{Arc, Condvar, Mutex};
 use std::thread::ThreadId;
 use std::time::{Duration, Instant};
@@ -274,6 +275,10 @@ enum Ev {
 	Resume(u64),
 	SeekTo(usize),
 	PopError,
+	/// (not in the model) `resume_at(clock.time() + ticks, tween)` on the scenario's clock: the sound becomes WaitingToResume
+	ResumeAtClock(u64, u64),
+	/// (not in the model) start the scenario's clock
+	ClockStart,
 	DropHandle,
 	DropTrack,
 	/// the application adds another sub-track: the manager's controller drains its unused-resource queue
@@ -295,7 +300,16 @@ struct Scenario {
 	reject_cap0: bool,
 	/// the parent track is already paused when the sound is played
 	start_paused: bool,
+	/// (not in the model) the sound is given the start time `clock.time() + ticks` on a clock that is created stopped
+	/// (one tick per frame once started)
+	clock_start: Option<u64>,
 	evs: Vec<Ev>,
+}
+impl Scenario {
+	/// does the scenario use something the model has no notion of (a clock)?
+	fn beyond_model(&self) -> bool {
+		self.clock_start.is_some() || self.evs.iter().any(|e| matches!(e, Ev::ResumeAtClock(..) | Ev::ClockStart))
+	}
 }
 
 fn state_code(s: PlaybackState) -> i128 {
@@ -375,6 +389,12 @@ struct Trace {
 	cb_after_err: Vec<bool>,
 	cb_outputs: Vec<Vec<i128>>,
 	cb_paused: Vec<bool>,
+	/// per callback: its event number
+	cb_ev: Vec<usize>,
+	/// per PopError: (event number, the error had been raised and the thread had come to rest before the call)
+	pop_due: Vec<(usize, bool)>,
+	/// (event number, what) for the non-model part of a scenario (clock start time, resume_at)
+	extra: Vec<String>,
 }
 
 /// free mode: wait until the thread is quiescent and classify: 1 ended, 0 asleep/blocked, 2 spinning
@@ -439,6 +459,11 @@ fn run_scenario(sc: &Scenario) -> Trace {
 		let mut data = StreamingSoundData::from_decoder(dec).start_position(PlaybackPosition::Samples(sc.script.start));
 		if let Some((a, b)) = sc.script.lp {
 			data = data.loop_region(Region { start: PlaybackPosition::Samples(a), end: kira::sound::EndPosition::Custom(PlaybackPosition::Samples(b)) });
+		}
+		let mut clock = if sc.beyond_model() { Some(mgr.add_clock(ClockSpeed::TicksPerSecond(SR as f64)).unwrap()) } else { None };
+		if let (Some(ticks), Some(c)) = (sc.clock_start, clock.as_ref()) {
+			data = data.start_time(c.time() + ticks);
+			t.extra.push(format!("start_time = clock.time() + {ticks} (clock stopped, one tick per frame)"));
 		}
 		let mut handle: Option<StreamingSoundHandle<i128>> = None;
 		t.play_err = -1;
@@ -541,6 +566,7 @@ fn run_scenario(sc: &Scenario) -> Trace {
 					t.cb_after_err.push(err_before);
 					t.cb_outputs.push(dec);
 					t.cb_paused.push(track_paused || t.sound_dropped);
+					t.cb_ev.push(k);
 					t.cb_count += 1;
 				}
 				Ev::TrackPause => {
@@ -582,10 +608,27 @@ fn run_scenario(sc: &Scenario) -> Trace {
 				}
 				Ev::PopError => {
 					if let Some(h) = handle.as_mut() {
+						let due = {
+							let g = ctl.m.lock().unwrap();
+							g.first_err.is_some() && (g.dropped || g.waiting)
+						};
 						let e = h.pop_error().unwrap_or(-1);
 						t.obs.push(e);
 						t.pops.push((k, e));
+						t.pop_due.push((k, due));
 						t.model_evs.push("RG GPopError".into());
+					}
+				}
+				Ev::ResumeAtClock(ticks, f) => {
+					if let (Some(h), Some(c)) = (handle.as_mut(), clock.as_ref()) {
+						h.resume_at(StartTime::ClockTime(c.time() + *ticks), tween(*f));
+						t.extra.push(format!("event {k}: resume_at(clock.time() + {ticks}, {f} frames)"));
+					}
+				}
+				Ev::ClockStart => {
+					if let Some(c) = clock.as_mut() {
+						c.start();
+						t.extra.push(format!("event {k}: clock.start()"));
 					}
 				}
 				Ev::DropHandle => {
@@ -692,6 +735,7 @@ fn run_scenario(sc: &Scenario) -> Trace {
 		ctl.kill();
 		drop(handle);
 		drop(track);
+		drop(clock);
 		drop(mgr);
 		t
 	});
@@ -791,6 +835,36 @@ fn monitors(s: &mut Session, desc: &str, sc: &Scenario, tr: &Trace) {
 			stopped_at = Some(*k);
 		}
 	}
+	// the same clause at every observation, whatever the sound was doing when the decoder failed (playing, fading,
+	// Paused, WaitingToResume, waiting for its start time): once a callback has processed the sound with the error
+	// raised, every later observation finds it Stopped; one callback later it has left its track
+	if let Some(c0) = (0..tr.cb_count).find(|&c| tr.cb_after_err[c] && !tr.cb_paused[c]) {
+		let e0 = tr.cb_ev[c0];
+		for (k, st, loaded) in &tr.states {
+			if *k <= e0 {
+				continue;
+			}
+			if *st != 6 {
+				s.fail(
+					desc.to_string(),
+					format!(
+						"event {k}: the decoder had reported error {:?} before the callback of event {e0}, which processed the sound, but the handle still reports state {st} (0 Playing, 1 Pausing, 2 Paused, 3 WaitingToResume, 4 Resuming, 5 Stopping), not Stopped",
+						tr.first_err
+					),
+					None,
+				);
+				break;
+			}
+			if *loaded != 0 && tr.cb_ev.iter().any(|e| *e > e0 && e < k) {
+				s.fail(
+					desc.to_string(),
+					format!("event {k}: the sound failed with decoder error {:?} (processed by the callback of event {e0}) and another callback has run, but it still occupies a slot of its track", tr.first_err),
+					None,
+				);
+				break;
+			}
+		}
+	}
 	// error path: the first processed (non-paused-track) callback that starts after the error was raised
 	// must leave the sound Stopped and be silent, as must all later ones
 	let mut seen = false;
@@ -806,6 +880,19 @@ fn monitors(s: &mut Session, desc: &str, sc: &Scenario, tr: &Trace) {
 	if seen && !tr.handle_dropped {
 		if tr.final_state != Some(6) {
 			s.fail(desc.to_string(), format!("decoder error {:?} raised and a callback processed the sound, but the final state is {:?}", tr.first_err, tr.final_state), None);
+		}
+	}
+	// the error can be popped from the handle as soon as the decoder has reported it (whether or not the audio
+	// thread has noticed it yet)
+	{
+		let mut got = false;
+		for ((k, e), (_, due)) in tr.pops.iter().zip(tr.pop_due.iter()) {
+			if *e != -1 {
+				got = true;
+			} else if *due && !got {
+				s.fail(desc.to_string(), format!("event {k}: the decoder had reported error {:?} but pop_error returned nothing", tr.first_err), None);
+				break;
+			}
 		}
 	}
 	// the first successful pop_error returns the first error
@@ -908,6 +995,14 @@ fn drive(pace: &[usize], cb: usize, rounds: usize) -> Vec<Ev> {
 fn submit(s: &mut Session, kind: &str, sc: &Scenario) -> Trace {
 	let tr = run_scenario(sc);
 	let t = term(sc, &tr);
+	if sc.beyond_model() {
+		// a clock is involved (start time / resume_at): the model has no clocks; the property clauses are evaluated
+		// on the implementation only.  The description lists the model events plus the clock operations.
+		let desc = format!("{kind}: {t} with {}; events {:?}", tr.extra.join(", "), sc.evs);
+		monitors(s, &desc, sc, &tr);
+		s.eval_only(kind);
+		return tr;
+	}
 	let desc = format!("{kind}: {t}");
 	monitors(s, &desc, sc, &tr);
 	if tr.panicked {
@@ -941,6 +1036,9 @@ pub fn run(args: &Args) {
 	let mut r = Rng::new(args.seed);
 	let mul = args.budget_mul as usize * if args.thorough { 8 } else { 1 };
 
+	// ---- 0. fixed corpus (no random draws): the decoder fails while the sound is NOT advancing ---------
+	not_advancing_corpus(&mut s);
+
 	// ---- 1. faults at the k-th decode / seek call, exhaustively for short streams -------------------
 	for npk in 1..=(if args.thorough { 12 } else { 6 }) {
 		for variant in 0..(2 * mul) {
@@ -964,7 +1062,7 @@ pub fn run(args: &Args) {
 					evs.push(Ev::Cb(2));
 					evs.push(Ev::ObsH);
 					evs.push(Ev::ObsD);
-					let sc = Scenario { free: false, script, ibs: 4, reject: false, reject_cap0: false, start_paused: false, evs };
+					let sc = Scenario { free: false, script, ibs: 4, reject: false, reject_cap0: false, start_paused: false, clock_start: None, evs };
 					submit(&mut s, "fault_decode_k", &sc);
 				}
 			}
@@ -980,7 +1078,7 @@ pub fn run(args: &Args) {
 				evs.push(Ev::Cb(2));
 				evs.push(Ev::ObsH);
 				evs.push(Ev::ObsD);
-				let sc = Scenario { free: false, script, ibs: 8, reject: false, reject_cap0: false, start_paused: false, evs };
+				let sc = Scenario { free: false, script, ibs: 8, reject: false, reject_cap0: false, start_paused: false, clock_start: None, evs };
 				submit(&mut s, "fault_seek_k", &sc);
 			}
 		}
@@ -1032,14 +1130,14 @@ pub fn run(args: &Args) {
 					evs.insert(pos + j, e);
 				}
 				evs.extend(tail);
-				let sc = Scenario { free: false, script: script.clone(), ibs: 2 + base % 3, reject: false, reject_cap0: false, start_paused: false, evs };
+				let sc = Scenario { free: false, script: script.clone(), ibs: 2 + base % 3, reject: false, reject_cap0: false, start_paused: false, clock_start: None, evs };
 				submit(&mut s, ["stop_at", "stop_fade_at", "drop_handle_at", "drop_manager_at", "drop_track_drain_at", "drop_track_at", "drop_track_then_manager_at"][kind], &sc);
 			}
 		}
 		// rejected by a full track, then the decoder is allowed to go on
 		for cap0 in [false, true] {
 			let evs = vec![Ev::ObsD, Ev::Permit, Ev::ObsD, Ev::Permit, Ev::Cb(3), Ev::ObsD];
-			submit(&mut s, "rejected_paced", &Scenario { free: false, script: script.clone(), ibs: 4, reject: true, reject_cap0: cap0, start_paused: false, evs });
+			submit(&mut s, "rejected_paced", &Scenario { free: false, script: script.clone(), ibs: 4, reject: true, reject_cap0: cap0, start_paused: false, clock_start: None, evs });
 		}
 	}
 
@@ -1113,8 +1211,79 @@ pub fn run(args: &Args) {
 		}
 		evs.push(Ev::PopError);
 		evs.push(Ev::ObsD);
-		let sc = Scenario { free: false, script, ibs, reject: false, reject_cap0: false, start_paused: false, evs };
+		let sc = Scenario { free: false, script, ibs, reject: false, reject_cap0: false, start_paused: false, clock_start: None, evs };
 		submit(&mut s, ["pace_ahead", "pace_starving", "pace_stalled", "pace_random"][style], &sc);
+	}
+
+	// ---- 3b. the decoder fails (k-th decode call, or a seek) while the sound is Paused / Pausing / WaitingToResume /
+	//          waiting for its start time; afterwards the sound may be resumed / the clock started ------
+	for k in 0..(24 * mul) {
+		let packets: Vec<usize> = (0..r.range(1, 5)).map(|_| r.range(1, 4) as usize).collect();
+		let total: usize = packets.iter().sum();
+		let npk = packets.len();
+		let mut script = Script::plain(packets.clone());
+		script.gran = r.range(1, 2) as usize;
+		let mode = k % 4; // 0, 1 Paused (model), 2 WaitingToResume, 3 start time on a stopped clock
+		let by_seek = mode != 3 && r.chance(1, 4);
+		let j = r.range(1, npk as i64 + 1) as u64; // failing decode call
+		if by_seek {
+			script.seek_at = vec![2];
+		} else if r.chance(1, 2) {
+			script.dec_at = vec![j];
+		} else {
+			script.dec_from = j;
+		}
+		let ibs = *r.pick(&[1usize, 2, 4, 8]);
+		let before = if by_seek { r.below(npk as u64 + 1) } else { r.below(j) }; // decoder calls allowed before the pause
+		let fade = r.below(4);
+		let mut evs = vec![];
+		for _ in 0..before {
+			evs.push(Ev::Permit);
+		}
+		if mode == 3 {
+			evs.push(Ev::Cb(r.range(1, 4) as usize));
+			evs.push(Ev::ObsH);
+		} else {
+			if r.chance(2, 3) {
+				evs.push(Ev::Cb(r.range(1, 3) as usize));
+				evs.push(Ev::ObsH);
+			}
+			evs.push(Ev::Pause(fade));
+			// usually long enough for the fade-out to complete (else the error finds the sound Pausing)
+			evs.push(Ev::Cb(if r.chance(1, 5) { 1 } else { fade as usize + 1 + r.below(2) as usize }));
+			evs.push(Ev::ObsH);
+			if mode == 2 {
+				evs.push(Ev::ResumeAtClock(r.range(1, 6) as u64, r.below(3)));
+				evs.push(Ev::Cb(r.range(1, 3) as usize));
+				evs.push(Ev::ObsH);
+			}
+		}
+		if by_seek {
+			evs.push(Ev::SeekTo(r.below(total as u64 + 1) as usize));
+		}
+		// the decoder goes on until it fails
+		for _ in 0..(npk + 3) {
+			evs.push(Ev::Permit);
+		}
+		evs.push(Ev::ObsD);
+		if r.chance(1, 3) {
+			evs.push(Ev::PopError);
+		}
+		evs.push(Ev::Cb(r.range(1, 4) as usize));
+		evs.push(Ev::ObsH);
+		match r.below(4) {
+			0 => evs.push(Ev::Resume(r.below(3))),
+			1 if mode >= 2 => evs.push(Ev::ClockStart),
+			_ => {}
+		}
+		evs.push(Ev::Cb(r.range(1, 8) as usize));
+		evs.push(Ev::ObsH);
+		evs.push(Ev::PopError);
+		evs.push(Ev::Cb(2));
+		evs.push(Ev::ObsH);
+		evs.push(Ev::ObsD);
+		let sc = Scenario { free: false, script, ibs, reject: false, reject_cap0: false, start_paused: false, clock_start: if mode == 3 { Some(r.range(1, 6) as u64) } else { None }, evs };
+		submit(&mut s, ["error_while_paused", "error_while_paused", "error_while_waiting_to_resume", "error_before_start_time"][mode], &sc);
 	}
 
 	// ---- 4. free-running: thread end, abandoned sounds, errors ----------------------------------------
@@ -1122,6 +1291,77 @@ pub fn run(args: &Args) {
 
 	s.notes.push(format!("sample rate {SR}, ring capacity {CAP}"));
 	s.finish();
+}
+
+/// Fixed corpus, run first on every run whatever the seed: the decoder reports its error while the sound is not
+/// advancing.  `process` must still turn the error into Stopped in the next callback that processes the sound, the
+/// track must unload it one callback later, and the error must be poppable.
+///  * Paused (pause fade 0 / 2 frames; one-off and persistent faults; first packet, mid-stream, failing seek): the
+///    model has these states, so they are model cases too (`error_reaches_handle` holds for every playback state);
+///  * Pausing (fade-out not finished) - model case;
+///  * WaitingToResume (`resume_at` on a clock that is not ticking) and a start time on a clock that is never
+///    started, or started afterwards: monitor only (the model has no clocks).
+fn not_advancing_corpus(s: &mut Session) {
+	let mk = |script: Script, ibs: usize, clock_start: Option<u64>, evs: Vec<Ev>| Scenario { free: false, script, ibs, reject: false, reject_cap0: false, start_paused: false, clock_start, evs };
+	let tail = |evs: &mut Vec<Ev>, resume: Option<Ev>| {
+		evs.extend([Ev::ObsD, Ev::Cb(2), Ev::ObsH, Ev::ObsD]);
+		if let Some(e) = resume {
+			evs.push(e);
+		}
+		evs.extend([Ev::Cb(1), Ev::ObsH, Ev::PopError, Ev::PopError, Ev::Cb(3), Ev::ObsH, Ev::ObsD]);
+	};
+	for ibs in [1usize, 4] {
+		for fade in [0u64, 2] {
+			for persistent in [false, true] {
+				// mid-stream: one packet is played, the sound is paused, the 2nd decode call fails
+				let mut script = Script::plain(vec![2, 2, 2]);
+				if persistent {
+					script.dec_from = 2;
+				} else {
+					script.dec_at = vec![2];
+				}
+				let mut evs = vec![Ev::Permit, Ev::Cb(1), Ev::ObsH, Ev::Pause(fade), Ev::Cb(fade as usize + 1), Ev::ObsH, Ev::ObsD, Ev::Permit];
+				tail(&mut evs, None);
+				submit(s, "error_while_paused", &mk(script.clone(), ibs, None, evs));
+				// the same, and the application resumes the sound after the failure was processed
+				let mut evs = vec![Ev::Permit, Ev::Cb(1), Ev::ObsH, Ev::Pause(fade), Ev::Cb(fade as usize + 1), Ev::ObsH, Ev::Permit];
+				tail(&mut evs, Some(Ev::Resume(fade)));
+				submit(s, "error_while_paused", &mk(script.clone(), ibs, None, evs));
+				// first packet: paused before anything was decoded
+				let mut script1 = Script::plain(vec![3, 1]);
+				if persistent {
+					script1.dec_from = 1;
+				} else {
+					script1.dec_at = vec![1];
+				}
+				let mut evs = vec![Ev::Pause(fade), Ev::Cb(fade as usize + 1), Ev::ObsH, Ev::Permit];
+				tail(&mut evs, None);
+				submit(s, "error_while_paused", &mk(script1.clone(), ibs, None, evs));
+				// WaitingToResume on a clock that does not tick
+				let mut evs = vec![Ev::Permit, Ev::Cb(1), Ev::Pause(fade), Ev::Cb(fade as usize + 1), Ev::ObsH, Ev::ResumeAtClock(3, fade), Ev::Cb(2), Ev::ObsH, Ev::Permit];
+				tail(&mut evs, if persistent { Some(Ev::ClockStart) } else { None });
+				submit(s, "error_while_waiting_to_resume", &mk(script.clone(), ibs, None, evs));
+				// start time on a clock that is never started / started after the failure: first packet and 2nd packet
+				for sc1 in [script1.clone(), script.clone()] {
+					let mut evs = vec![Ev::Cb(2), Ev::ObsH, Ev::Permit, Ev::Permit];
+					tail(&mut evs, if fade == 2 { Some(Ev::ClockStart) } else { None });
+					submit(s, "error_before_start_time", &mk(sc1, ibs, Some(2 + fade), evs));
+				}
+			}
+			// a seek that fails while the sound is paused (seek #1 is made by play, #2 by the seek command)
+			let mut script = Script::plain(vec![2, 2, 2]);
+			script.seek_at = vec![2];
+			let mut evs = vec![Ev::Permit, Ev::Cb(1), Ev::ObsH, Ev::Pause(fade), Ev::Cb(fade as usize + 1), Ev::ObsH, Ev::SeekTo(4), Ev::Permit, Ev::Permit, Ev::Permit];
+			tail(&mut evs, None);
+			submit(s, "error_while_paused", &mk(script, ibs, None, evs));
+		}
+		// Pausing: the fade-out (6 frames) is still running when the failure is processed
+		let mut script = Script::plain(vec![4, 4, 4]);
+		script.dec_at = vec![3];
+		let mut evs = vec![Ev::Permit, Ev::Permit, Ev::Cb(1), Ev::Pause(6), Ev::Cb(2), Ev::ObsH, Ev::Permit];
+		tail(&mut evs, None);
+		submit(s, "error_while_paused", &mk(script, ibs, None, evs));
+	}
 }
 
 /// Mid-chunk underrun on the real code (free-running, timing dependent, not compared with the model):
@@ -1202,28 +1442,28 @@ fn free_scenarios(s: &mut Session, r: &mut Rng, mul: usize) {
 		let script = Script::plain(gen_packets(r, 6));
 		let n = script.n();
 		let evs = vec![Ev::Cb(n / 2 + 1), Ev::ObsH, Ev::Cb(n + 4), Ev::ObsH, Ev::ObsF, Ev::Cb(2), Ev::ObsH, Ev::ObsD];
-		submit(s, "free_natural_end", &Scenario { free: true, script, ibs: 16, reject: false, reject_cap0: false, start_paused: false, evs });
+		submit(s, "free_natural_end", &Scenario { free: true, script, ibs: 16, reject: false, reject_cap0: false, start_paused: false, clock_start: None, evs });
 	}
 	// stop a long / looping sound: the thread must end
 	for lp in [false, true] {
 		let evs = vec![Ev::ObsF, Ev::Cb(8), Ev::ObsH, Ev::Stop(0), Ev::Cb(8), Ev::ObsH, Ev::ObsF, Ev::Cb(4), Ev::ObsH];
-		submit(s, "free_stop_long", &Scenario { free: true, script: long(lp), ibs: 16, reject: false, reject_cap0: false, start_paused: false, evs });
+		submit(s, "free_stop_long", &Scenario { free: true, script: long(lp), ibs: 16, reject: false, reject_cap0: false, start_paused: false, clock_start: None, evs });
 	}
 	// rejected by a full track / dropped with the track / with the manager: F12
 	for lp in [false, true] {
 		for cap0 in [false, true] {
 			let evs = vec![Ev::ObsF]; // no call counts: how far the thread got before the rejection is a race
-			submit(s, "free_rejected", &Scenario { free: true, script: long(lp), ibs: 16, reject: true, reject_cap0: cap0, start_paused: false, evs });
+			submit(s, "free_rejected", &Scenario { free: true, script: long(lp), ibs: 16, reject: true, reject_cap0: cap0, start_paused: false, clock_start: None, evs });
 		}
 		let evs = vec![Ev::Cb(8), Ev::ObsH, Ev::DropTrack, Ev::Cb(8), Ev::ObsF, Ev::ObsD];
-		submit(s, "free_dropped_with_track", &Scenario { free: true, script: long(lp), ibs: 16, reject: false, reject_cap0: false, start_paused: false, evs });
+		submit(s, "free_dropped_with_track", &Scenario { free: true, script: long(lp), ibs: 16, reject: false, reject_cap0: false, start_paused: false, clock_start: None, evs });
 		let evs = vec![Ev::Cb(8), Ev::ObsH, Ev::DropManager, Ev::ObsF, Ev::ObsD];
-		submit(s, "free_dropped_with_manager", &Scenario { free: true, script: long(lp), ibs: 16, reject: false, reject_cap0: false, start_paused: false, evs });
+		submit(s, "free_dropped_with_manager", &Scenario { free: true, script: long(lp), ibs: 16, reject: false, reject_cap0: false, start_paused: false, clock_start: None, evs });
 	}
 	// a short stream that is rejected / dropped still ends by itself
 	{
 		let evs = vec![Ev::ObsF];
-		submit(s, "free_rejected_short", &Scenario { free: true, script: Script::plain(vec![5, 5]), ibs: 16, reject: true, reject_cap0: false, start_paused: false, evs });
+		submit(s, "free_rejected_short", &Scenario { free: true, script: Script::plain(vec![5, 5]), ibs: 16, reject: true, reject_cap0: false, start_paused: false, clock_start: None, evs });
 	}
 	// decode error while the parent track is paused: F13
 	for persistent in [true, false] {
@@ -1250,25 +1490,25 @@ fn free_scenarios(s: &mut Session, r: &mut Rng, mul: usize) {
 			Ev::ObsH,
 			Ev::PopError,
 		];
-		submit(s, "free_error_paused_track", &Scenario { free: true, script, ibs: 4096, reject: false, reject_cap0: false, start_paused: false, evs });
+		submit(s, "free_error_paused_track", &Scenario { free: true, script, ibs: 4096, reject: false, reject_cap0: false, start_paused: false, clock_start: None, evs });
 	}
 	// a persistent error on a track that is paused from the start: the thread must end by itself (F13 regression)
 	{
 		let mut script = Script::plain(vec![4, 4]);
 		script.dec_from = 2;
 		let evs = vec![Ev::ObsF, Ev::Cb(4), Ev::ObsF, Ev::ObsH, Ev::ObsD, Ev::TrackResume, Ev::Cb(2), Ev::ObsH, Ev::PopError, Ev::Cb(2), Ev::ObsH];
-		submit(s, "free_error_track_paused_from_start", &Scenario { free: true, script, ibs: 16, reject: false, reject_cap0: false, start_paused: true, evs });
+		submit(s, "free_error_track_paused_from_start", &Scenario { free: true, script, ibs: 16, reject: false, reject_cap0: false, start_paused: true, clock_start: None, evs });
 	}
 	// dropped with its track, then the application adds another sub-track: the thread ends
 	for lp in [false, true] {
 		let evs = vec![Ev::Cb(8), Ev::ObsH, Ev::DropTrack, Ev::Cb(8), Ev::ObsF, Ev::Drain, Ev::ObsF, Ev::ObsD];
-		submit(s, "free_dropped_with_track_then_drained", &Scenario { free: true, script: long(lp), ibs: 16, reject: false, reject_cap0: false, start_paused: false, evs });
+		submit(s, "free_dropped_with_track_then_drained", &Scenario { free: true, script: long(lp), ibs: 16, reject: false, reject_cap0: false, start_paused: false, clock_start: None, evs });
 	}
 	// an immediate persistent error, observed before any callback, then processed
 	{
 		let mut script = Script::plain(vec![4, 4]);
 		script.dec_from = 2;
 		let evs = vec![Ev::ObsF, Ev::ObsH, Ev::Cb(2), Ev::ObsH, Ev::ObsF, Ev::PopError, Ev::Cb(2), Ev::ObsH];
-		submit(s, "free_error_before_callback", &Scenario { free: true, script, ibs: 16, reject: false, reject_cap0: false, start_paused: false, evs });
+		submit(s, "free_error_before_callback", &Scenario { free: true, script, ibs: 16, reject: false, reject_cap0: false, start_paused: false, clock_start: None, evs });
 	}
 }
